@@ -18,7 +18,7 @@ behaviour only on particular inputs - exactly the kind of change the test suite 
 from __future__ import annotations
 
 import ast
-from typing import List, Optional, Set, Tuple
+from typing import Dict, List, Optional, Set, Tuple
 
 from fjsa.flow import FuncFlow, guards_of, txt
 from fjsa.model import FuncInfo, Repo
@@ -302,6 +302,105 @@ def none_misuse(ff: FuncFlow) -> List[Tuple[ast.AST, str]]:
   return out
 
 
+def starved_collectors(ff: FuncFlow) -> List[Tuple[ast.AST, str]]:
+  """A list / dict / set created empty, read later (returned, passed on, iterated), and never fed: no append / extend / add / insert /
+  update / item store / += on it anywhere in the function. The loop that was meant to fill it contributes nothing. (None on the
+  pinned tree.) Decided on the source as written: the canonical form would inline the now single-use empty literal."""
+  from fjsa import shapes
+  fi = ff.fi
+  raw = fi.module.__dict__.get('_raw_funcs') or shapes.raw_functions(fi.module.src)
+  fi.module.__dict__['_raw_funcs'] = raw
+  fn = raw.get(fi.qualname)
+  if fn is None:
+    return []
+  own = []
+  stack = list(fn.body)
+  while stack:
+    x = stack.pop()
+    own.append(x)
+    stack.extend(ast.iter_child_nodes(x))   # nested functions included: a closure may feed or read the collector
+  params = {a.arg for a in fn.args.posonlyargs + fn.args.args + fn.args.kwonlyargs}
+  binds: Dict[str, List[ast.AST]] = {}
+  for x in own:
+    targets = []
+    if isinstance(x, ast.Assign):
+      targets = [(t, x.value) for t in x.targets]
+    elif isinstance(x, ast.AnnAssign) and x.value is not None:
+      targets = [(x.target, x.value)]
+    elif isinstance(x, (ast.For, ast.comprehension)):
+      targets = [(x.target, None)]
+    elif isinstance(x, ast.With):
+      targets = [(i.optional_vars, None) for i in x.items if i.optional_vars is not None]
+    for t, v in targets:
+      for n in ast.walk(t):
+        if isinstance(n, ast.Name) and isinstance(n.ctx, ast.Store):
+          binds.setdefault(n.id, []).append(v if t is n else None)
+  out = []
+  PURE = ('jax.', 'jnp.', 'np.', 'numpy.', 'len', 'sum', 'list', 'tuple', 'sorted', 'zip', 'enumerate', 'tree_util.', 'dict', 'set', 'max', 'min',
+          'any', 'all', 'iter', 'reversed', 'str', 'repr', 'print', 'logging.', 'hk.')
+  parent = {}
+  for x in own:
+    for ch in ast.iter_child_nodes(x):
+      parent[ch] = x
+  for name, vals in binds.items():
+    if name in params or len(vals) != 1:
+      continue
+    v = vals[0]
+    empty = (isinstance(v, (ast.List, ast.Set)) and not v.elts) or (isinstance(v, ast.Dict) and not v.keys) or (
+        isinstance(v, ast.Call) and not v.args and not v.keywords and txt(v.func) in ('list', 'dict', 'set'))
+    if not empty:
+      continue
+    fed = False
+    reads = 0
+    for x in own:
+      if isinstance(x, ast.Call) and isinstance(x.func, ast.Attribute) and isinstance(x.func.value, ast.Name) and x.func.value.id == name:
+        if x.func.attr in ('append', 'extend', 'add', 'insert', 'update', 'setdefault', 'appendleft', '__setitem__'):
+          fed = True
+      elif isinstance(x, ast.Subscript) and isinstance(x.ctx, (ast.Store, ast.Del)) and isinstance(x.value, ast.Name) and x.value.id == name:
+        fed = True
+      elif isinstance(x, ast.AugAssign) and isinstance(x.target, ast.Name) and x.target.id == name:
+        fed = True
+      elif isinstance(x, (ast.Global, ast.Nonlocal)) and name in x.names:
+        fed = True
+      elif isinstance(x, ast.Name) and x.id == name and isinstance(x.ctx, ast.Load):
+        par = parent.get(x)
+        if isinstance(par, ast.Attribute) and par.value is x:
+          continue
+        if isinstance(par, ast.Call) and (x in par.args or any(k.value is x for k in par.keywords)) and not txt(par.func).startswith(PURE):
+          fed = True   # handed to code that may fill it
+        if isinstance(par, ast.Starred) or isinstance(par, ast.keyword):
+          pass
+        reads += 1
+    if not fed and reads:
+      out.append((fi.node, name))
+  return out
+
+
+def silent_generators(fi: FuncInfo) -> bool:
+  """Annotated as an iterator / generator, but the body neither yields nor returns a value."""
+  node = fi.node
+  if not isinstance(node, (ast.FunctionDef, ast.AsyncFunctionDef)) or node.returns is None:
+    return False
+  ann = txt(node.returns)
+  if not ann.startswith(('Iterator[', 'Iterable[', 'Generator[', 'typing.Iterator[', 'typing.Iterable[', 'typing.Generator[')):
+    return False
+  own = []
+  stack = list(node.body)
+  while stack:
+    x = stack.pop()
+    if isinstance(x, (ast.FunctionDef, ast.AsyncFunctionDef, ast.ClassDef, ast.Lambda)):
+      continue
+    own.append(x)
+    stack.extend(ast.iter_child_nodes(x))
+  if any(isinstance(x, (ast.Yield, ast.YieldFrom)) for x in own):
+    return False
+  if any(isinstance(x, ast.Return) and x.value is not None for x in own):
+    return False
+  if all(isinstance(st, (ast.Pass, ast.Raise)) or (isinstance(st, ast.Expr) and isinstance(st.value, ast.Constant)) for st in node.body):
+    return False   # abstract stub
+  return True
+
+
 MEMO = {'functools.lru_cache', 'functools.cache'}
 
 
@@ -385,6 +484,13 @@ def check_lints(check, funcs, rule_prefix: str = ''):
       check.ob('R-CACHE', fi, '@' + txt(d)[:60], False,
                f'the memoised result depends on more than the arguments: {w} changes at run time (backend selection, configuration), so a '
                'cached result outlives the state it was built for', node=d, exact=True)
+    for st, cname in starved_collectors(ff):
+      check.ob('R-ACCUM', fi, f'{cname} = <empty>', False,
+               f'`{cname}` is created empty and read later, but nothing is ever added to it: whatever the loop computes never reaches the result',
+               node=st, exact=True)
+    if silent_generators(fi):
+      check.ob('R-ACCUM', fi, f'{fi.qualname} -> {txt(fi.node.returns)[:40]}', False,
+               'declared to produce an iterator but neither yields nor returns one: callers iterate over None / get nothing', exact=True)
     for x, why in none_misuse(ff):
       check.ob('R-NONE', fi, txt(x)[:70], False, why + ': the two arms of the None test are the wrong way round', node=x, exact=True)
     for st, pname in clamped_before_validation(ff):
